@@ -314,8 +314,10 @@ def _content_only(ctx) -> None:
                 c = t[2][1]
                 names = {n_[1] for n_ in ([c] if c[0] == "name" else list(c[1]) if c[0] == "tuple" else []) if n_[0] == "name"}
                 return kind in names
+            if k == "call" and t[1] == ("name", "bool") and len(t[2]) == 1:
+                return tr(t[2][0])
             if k == "call" and t[1] in (("attr", ("name", "math"), "isnan"), ("name", "isnan")) and t[2] == (X,):
-                return True if kind == "float" else None
+                return True if kind in ("float", "Decimal") else None
             if k == "call" and t[1] in (("name", "hasattr"), ("name", "callable")):
                 return False
             if k == "call" and t[1] == ("name", "_is_hashable") and t[2] == (X,):
@@ -331,11 +333,11 @@ def _content_only(ctx) -> None:
         for leaf, lconds in _lwc(e.term):
             if not any(t == ("call", ("name", "hash"), (X,), ()) for t in _subterms(leaf)):
                 continue
-            for kind in ("float", "complex"):
+            for kind in ("float", "complex", "Decimal"):       # (Decimal: any other hashable type with a value that is not equal to itself)
                 if reach(tuple(e.conds) + tuple(lconds), kind):
                     nanp.append(f"`return {show(leaf, gi)[:40]}` is reached by a {kind} NaN: hash() of a NaN depends on the object's address, "
                                 f"so equal contents get different fingerprints")
-    ctx.ob("c.content-only", g, "nan-by-value", not nanp, "no hash(x) is taken of a float / complex NaN", g.node, message="; ".join(nanp[:2]))
+    ctx.ob("c.content-only", g, "nan-by-value", not nanp, "no hash(x) is taken of a float / complex / Decimal NaN", g.node, message="; ".join(nanp[:2]))
 
 
 _M64 = 2 ** 64 - 1
@@ -640,6 +642,8 @@ def _pure(ctx) -> None:
 
 _V = "vector"
 MUTANTS = [
+    dict(id="decimal-nan-hashed-by-identity", module="vector", old="			if _is_nan_like(x):\n", new="			if False:\n",
+         rules=["c.content-only"], desc="reverts fix 5829442"),
     dict(id="setitem-no-invalidate", module=_V, old="		self._invalidate_fp()\n		_alias.register", new="		_alias.register",
          rules=["a.vector-coherence"]),
     dict(id="setitem-invalidate-conditional", module=_V, old="		self._invalidate_fp()\n		_alias.register",
@@ -653,8 +657,11 @@ MUTANTS = [
          old="		return self._compute_fingerprint_full()\n\n	def _build_column_map",
          new="		if self._fp is None:\n			self._fp = self._compute_fingerprint_full()\n		return self._fp\n\n	def _build_column_map",
          rules=["b.container", "d.memo-discipline"]),
-    dict(id="complex-nan-hashed-by-identity", module=_V, old="		if isinstance(x, complex) and x != x:\n", new="		if False:\n", rules=["c.content-only"],
-         desc="reverts the complex-NaN fix"),
+    # (reverting only the complex-NaN branch of 0d74e37 is harmless since 5829442: a complex NaN then takes the generic not-self-equal
+    #  branch; the two together are the violation)
+    dict(id="complex-nan-hashed-by-identity", rules=["c.content-only"],
+         edits=[(_V, "		if isinstance(x, complex) and x != x:\n", "		if False:\n", 1), (_V, "			if _is_nan_like(x):\n", "			if False:\n", 1)],
+         desc="reverts the complex-NaN fix and the generic NaN branch"),
     dict(id="float-nan-hashed-by-identity", module=_V, old="			if math.isnan(x):\n				return 0xDEADBEEFCAFEBABE\n", new="", rules=["c.content-only"]),
     dict(id="row-fingerprint-inherited", module="table", old="	def fingerprint(self):\n		# never memoised: the same Row object",
          new="	def _unused_fingerprint(self):\n		# never memoised: the same Row object", rules=["b.container"], desc="reverts fix 71ab607"),
@@ -663,10 +670,10 @@ MUTANTS = [
          new="		return Vector.fingerprint(self)\n\n	def _build_column_map", rules=["b.container"]),
     dict(id="fold-commutative", module=_V, old="			total = (total * B + h) % P\n		return total",
          new="			total = (total + h) % P\n		return total", rules=["c.content-only"]),
-    dict(id="id-in-hash-element", module=_V, old="		if _is_hashable(x):\n			return _mix64(hash(x))\n",
-         new="		if _is_hashable(x):\n			return _mix64(hash(x))\n		return _mix64(id(x))\n", rules=["c.content-only"]),
-    dict(id="leaf-hash-raw", module=_V, old="		if _is_hashable(x):\n			return _mix64(hash(x))\n",
-         new="		if _is_hashable(x):\n			return hash(x)\n", rules=["f.scatter"],
+    dict(id="id-in-hash-element", module=_V, old="			return _mix64(hash(x))\n\n		return _mix64(hash(repr(x)))",
+         new="			return _mix64(hash(x))\n\n		return _mix64(id(x))", rules=["c.content-only"]),
+    dict(id="leaf-hash-raw", module=_V, old="			return _mix64(hash(x))\n\n		return _mix64(hash(repr(x)))",
+         new="			return hash(x)\n\n		return _mix64(hash(repr(x)))", rules=["f.scatter"],
          desc="reverts 17c195f for leaves: -5 ~ 2**61-6, [a, b] ~ [a+d, b-d*B] (BH09-5, BH09-7)"),
     dict(id="child-fingerprint-raw", module=_V, old="			return _mix64(int(x.fingerprint()) ^ _FP_TAG_VECTOR)",
          new="			return int(x.fingerprint())", rules=["f.scatter"], desc="a 2x2 table ~ its transpose (BH09-2)"),
